@@ -76,8 +76,21 @@ def gen_scope(runner, tier, seed):
                   [r.randrange(0x10000) for _ in range(40 if tier == "quick" else 2000)]
             for et in ets:
                 frames.append(eth(SMAC, CMAC, et, ipv4(C4, S4, 1, pay)))
+            # the neighbour-solicitation exemption of the destination filter is for ICMPv6 type 135 only:
+            # other transports whose first payload byte is 135 (source port 0x87xx), other ICMPv6 types
+            for dst6 in (O6, S6):
+                for sp in (0x8700, 0x87ff, 0x86ff, 0x8800):
+                    frames.append(eth(SMAC, CMAC, 0x86DD, ipv6(C6, dst6, 6, tcp(C6, dst6, sp, 80, 1, 0, F_SYN))))
+                    frames.append(eth(SMAC, CMAC, 0x86DD, ipv6(C6, dst6, 17, udp(C6, dst6, sp, 3478, stun(1, b"\x21" * 16)))))
+                for t in (128, 133, 134, 136, 137):
+                    frames.append(eth(SMAC, CMAC, 0x86DD, ipv6(C6, dst6, 58, icmp6(C6, dst6, t, 0, b"\0\1\0\1" + ip(S6)))))
+                frames.append(eth(SMAC, CMAC, 0x86DD, ipv6(C6, dst6, 59, bytes([135, 0, 0, 0]) + b"\0" * 20)))
+            for dst4 in (O4, S4):
+                frames.append(eth(SMAC, CMAC, 0x0800, ipv4(C4, dst4, 6, tcp(C4, dst4, 0x8700, 80, 1, 0, F_SYN))))
             if si == 0 or tier != "quick":
                 s.send(frames)
+            else:
+                s.send(frames[-40:])
     # the RFC 1112 mapping keeps only 23 bits: an address whose second octet has bit 7 set
     cfg = Config(SMAC, [twin], None, KEYS[1], "none", 0)
     s = runner.session(cfg, "scope rfc1112 twin")
@@ -176,6 +189,7 @@ def gen_mirror(runner, tier, seed):
             for pl in app_requests(r):
                 p = r.choice([p4, p6])
                 frames.append(p.udp(sport, dport, pl))
+            frames.append(eth(dm, cm, 0x0806, arp(1, rb(r, 6), c4, b"\0" * 6, s4)))      # ARP sender hardware address differs from the frame's source
             other6 = rand_ip6(r)          # neighbour solicitation sent to a unicast address that is not the target
             frames.append(eth(SMAC, cm, 0x86DD, ipv6(c6, other6, 58, nd_ns(c6, other6, s6, b"\x01\x01" + cm), hlim=255)))
             frames.append(p4.tcp(sport, dport, r.randrange(1 << 32), r.randrange(1 << 32), F_FIN | F_ACK))
@@ -206,6 +220,22 @@ def gen_wellformed(runner, tier, seed):
         data = bytes((i * 7 + n) & 255 for i in range(n))
         fr.append(p4.echo(n & 0xffff, 1, data))
         fr.append(p6.echo(n & 0xffff, 1, data))
+    s.send(fr)
+    # requests whose own checksums are wrong (the responder does not validate them; what it emits must still be right)
+    s = runner.session(cfg_plain(), "wf requests with wrong checksums")
+    fr = []
+    for n in (0, 1, 7, 8, 33):
+        d = bytes(range(n))
+        for bad in (0x0000, 0xffff, 0xbeef, 0x0001):
+            m = icmp_echo(n, 1, d)
+            fr.append(p4.l3(1, m[:2] + struct.pack(">H", bad) + m[4:]))
+            m6 = icmp6(p6.cip, p6.sip, 128, 0, struct.pack(">HH", n, 1) + d)
+            fr.append(p6.l3(58, m6[:2] + struct.pack(">H", bad) + m6[4:]))
+            t = tcp(p4.cip, p4.sip, 1000 + n, 80, 5, 0, F_SYN)
+            fr.append(p4.l3(6, t[:16] + struct.pack(">H", bad) + t[18:]))
+            u = udp(p6.cip, p6.sip, 1000 + n, 3478, stun(1, bytes([n]) * 16))
+            fr.append(p6.l3(17, u[:6] + struct.pack(">H", bad) + u[8:]))
+            fr.append(eth(SMAC, CMAC, 0x0800, ipv4(C4, S4, 1, icmp_echo(n, 2, d), bad_csum=True)))
     s.send(fr)
     # jumbo: the largest IPv4 datagram / IPv6 payload
     big4 = bytes(r.randrange(256) for _ in range(65535 - 20 - 8))
@@ -312,6 +342,9 @@ def gen_arp_nd_echo(runner, tier, seed):
         # odd hardware / protocol types and lengths, trailers (Ethernet padding), random addresses
         for (ht, pt, hl, pl) in ((1, 0x0800, 6, 4), (6, 0x0800, 6, 4), (1, 0x86dd, 6, 4), (1, 0x0800, 8, 4), (1, 0x0800, 6, 16), (0, 0, 0, 0)):
             fr.append(eth(SMAC, cm, 0x0806, arp(1, cm, C4, "00:00:00:00:00:00", S4, ht, pt, hl, pl)))
+        for k in range(10 if tier == "quick" else 100):
+            # relayed / proxied request: ARP sender hardware address differs from the frame's source
+            fr.append(eth(b"\xff" * 6, cm, 0x0806, arp(1, rb(r, 6), rand_ip4(r), b"\0" * 6, S4)))
         for k in range(30 if tier == "quick" else 500):
             sha = bytes(r.randrange(256) for _ in range(6))
             fr.append(eth(r.choice([mac(SMAC), b"\xff" * 6]), sha, 0x0806,
@@ -939,6 +972,13 @@ def gen_stun(runner, tier, seed):
         pl.append(stun(1, tx, good + stun_change_request(False, True) + stun_change_request(False, True)))
     s = runner.session(cfg_plain(), "stun")
     fr = []
+    # special forms of the observed source address: IPv4-mapped / IPv4-compatible / loopback / link-local IPv6, extreme IPv4
+    for src in ("::ffff:192.0.2.33", "::192.0.2.33", "::1", "fe80::1", "2001:db8::", "ff02::1", "::ffff:0:1", "64:ff9b::c000:221"):
+        for q in (stun(1, rb(r, 16)), stun(1, STUN_MAGIC + rb(r, 12)), stun(1, rb(r, 16), stun_change_request(False, True))):
+            fr.append(Peer(CMAC, SMAC, src, S6).udp(r.choice([0, 1, 255, 256, 32768, 65535]), r.choice([3478, 65535]), q))
+    for src in ("0.0.0.1", "255.255.255.255", "127.0.0.1", "224.0.0.1", "1.0.0.0", "128.0.0.0"):
+        for q in (stun(1, rb(r, 16)), stun(1, STUN_MAGIC + rb(r, 12))):
+            fr.append(Peer(CMAC, SMAC, src, S4).udp(r.choice([0, 1, 255, 256, 32768, 65535]), 3478, q))
     for q in pl:
         for p in (peer4(), peer6(), Peer(CMAC, SMAC, rand_ip4(r), S4), Peer(CMAC, SMAC, rand_ip6(r), S6)):
             if tier == "quick" and r.random() < 0.5:
@@ -977,11 +1017,23 @@ def gen_rpc(runner, tier, seed):
     flows = []
     for i, (x, prog, v, pr, cred, verf) in enumerate(calls if tier != "quick" else calls[::3]):
         args = struct.pack(">IIII", 100003, 3, 6, 0) if pr == 3 else b""
-        p = r.choice([peer4(), peer6()])
+        p = r.choice([peer4(), peer6(), Peer(CMAC, SMAC, rand_ip6(r), rand_ip6(r)), Peer(CMAC, SMAC, rand_ip4(r), rand_ip4(r))])
         flows.append((p, 1024 + (i % 60000), r.choice([111, 0, 65535, r.randrange(65536)]), r.randrange(1 << 32), [rpc_call(x, prog, v, pr, cred, verf, args, tcp=True)]))
     for ch in chunks(flows, 500):
         s.reset()
         tcp_batch(s, ch)
+    # the longest replies: DUMP (v3/v4) to the longest address texts, over TCP and UDP
+    s = runner.session(cfg_plain(), "rpc long replies")
+    flows, fr = [], []
+    for i, dst in enumerate(["2001:db8:1234:5678:9abc:def0:1234:5678", "ffff:ffff:ffff:ffff:ffff:ffff:ffff:fffe", "2001:db8::1", "255.255.255.254", "1.1.1.1"]):
+        src = C6 if ":" in dst else C4
+        for v in (2, 3, 4):
+            for port in (111, 65535):
+                flows.append((Peer(CMAC, SMAC, src, dst), 20000 + len(flows), port, 9, [rpc_call(xid(), 100000, v, 4, tcp=True)]))
+                fr.append(Peer(CMAC, SMAC, src, dst).udp(20000 + len(fr), port, rpc_call(xid(), 100000, v, 4)))
+                fr.append(Peer(CMAC, SMAC, src, dst).udp(20000 + len(fr), port, rpc_call(xid(), 100000, v, 3)))
+    s.send(fr)
+    tcp_batch(s, flows)
     # replies and other message types are not calls
     pl = [rpc_call(xid(), mtype=1), rpc_call(xid(), mtype=2), rpc_call(xid(), rpcvers=3), rpc_call(xid())[:39], rpc_call(xid())[:24]]
     send_payloads(runner, "rpc non-calls", pl, r, tier)
@@ -995,8 +1047,8 @@ def gen_smb(runner, tier, seed):
     n = 40 if tier == "quick" else 400
     for k in range(n):
         ds = r.sample(dialect_pool, r.randrange(1, 9))
-        if r.random() < 0.2:
-            ds.append(r.choice(ds))                         # duplicates
+        if r.random() < 0.3:
+            ds.insert(r.randrange(len(ds) + 1), r.choice(ds))   # duplicates, anywhere in the list
         hdr = dict(pid_high=r.randrange(65536), tid=r.randrange(65536), pid_low=r.randrange(65536), uid=r.randrange(65536), mid=r.randrange(65536),
                    flags=r.choice([0x18, 0x08, 0x00, 0x18, r.choice([0x80, 0x88, 0x90, 0x98, 0x81, 0xff, 0xc0])]))
         pl.append(smb1_negotiate(ds, **hdr))
@@ -1094,9 +1146,12 @@ def gen_replies(runner, tier, seed):
         na = b"\x60\0\0\0" + ip(C6) + b"\x02\x01" + cm
         fr.append(p6.l3(58, icmp6(p6.cip, p6.sip, 136, 0, na), hlim=255))
         fr.append(eth(SMAC, cm, 0x86DD, ipv6(C6, "ff02::1", 58, icmp6(C6, "ff02::1", 136, 0, b"\x20\0\0\0" + ip(C6) + b"\x02\x01" + cm), hlim=255)))
-        for fl in (F_SYN | F_ACK, F_RST, F_RST | F_ACK, F_RST | F_PSH, F_SYN | F_ACK | F_ECE, F_RST | F_SYN):
-            for p in (p4, p6):
-                fr.append(p.tcp(r.randrange(65536), 80, r.randrange(1 << 32), r.randrange(1 << 32), fl, r.choice([b"", b"x"])))
+        for fl in range(512):
+            # every flag combination that carries RST, or both SYN and ACK (PSH|ACK data segments aside)
+            if (fl & F_RST or (fl & F_SYN and fl & F_ACK)) and not (fl & F_PSH and fl & F_ACK):
+                for p in (p4, p6):
+                    if tier != "quick" or fl < 64 or r.random() < 0.3:
+                        fr.append(p.tcp(r.randrange(65536), 80, r.randrange(1 << 32), r.randrange(1 << 32), fl, r.choice([b"", b"x"])))
         # application replies, generated
         app = []
         for k in range(15 if tier == "quick" else 80):
